@@ -46,13 +46,15 @@ type Case struct {
 	FloatPrec *int   `json:"float_prec,omitempty"`
 	// Big: one more top-level Str field of this many bytes, so that the event's encoded size lands
 	// in a chosen window below the 64 KiB pooling limit (at most one per chain: two would exceed it)
-	Big int `json:"big,omitempty"`
+	Big    int  `json:"big,omitempty"`
+	BigEsc bool `json:"big_escaped,omitempty"` // the large field starts with bytes that need escaping
 	// BigArr: the chain ends with an Array holding one string of this many bytes followed by a small
 	// Array: both come from the same pool, which must keep serving both sizes without reallocating
 	BigArr int `json:"big_array,omitempty"`
 }
 
 var bigPayload = strings.Repeat("0123456789abcdef", 4096) // 64 KiB of plain text
+var bigEscPayload = "\"q\\ é\n" + bigPayload              // the same behind a few bytes that need escaping
 
 // values longer than 32 bytes that need escaping (a conversion to string/[]byte of such a value
 // cannot use the compiler's small stack buffer)
@@ -442,7 +444,9 @@ func run(c *Case) (string, bool) {
 		for _, s := range steps {
 			e = s(e)
 		}
-		if c.Big > 0 {
+		if c.Big > 0 && c.BigEsc {
+			e = e.Str("big", bigEscPayload[:c.Big])
+		} else if c.Big > 0 {
 			e = e.Str("big", bigPayload[:c.Big])
 		}
 		if c.BigArr > 0 {
@@ -534,7 +538,8 @@ func TestRapidChains(t *testing.T) {
 		}
 		if c.BigArr == 0 && rapid.IntRange(0, 5).Draw(rt, "big") == 0 {
 			// sizes around the buffer growth steps up to just below the pooling limit; the chain itself stays small
-			c.Big = rapid.SampledFrom([]int{600, 4000, 30000, 33000, 57400, 60000, 61000}).Draw(rt, "bigsize")
+			c.Big = rapid.SampledFrom([]int{600, 4000, 11000, 30000, 33000, 57400, 60000, 61000}).Draw(rt, "bigsize")
+			c.BigEsc = rapid.Bool().Draw(rt, "bigesc")
 		}
 		if rapid.Bool().Draw(rt, "settings") {
 			c.TimeFmt = rapid.SampledFrom(timeFmts).Draw(rt, "timefmt")
@@ -583,11 +588,13 @@ func TestEachFamily(t *testing.T) {
 	}
 	// events whose buffer has grown to each capacity class up to the pooling limit (64 KiB): still pooled, still free
 	for _, lg := range []string{"bare", "ctx", "ts", "filtered"} {
-		for _, big := range []int{500, 1100, 9000, 33000, 41000, 49500, 57400, 60000, 63000} {
-			c := &Case{Logger: lg, Fin: "msg", Build: buildName(), Steps: []Step{{M: "int", V: 3}}, Big: big}
-			n++
-			if msg, _ := run(c); msg != "" {
-				fail(t, "family", c, fmt.Sprintf("with a %d-byte field: %s", big, msg))
+		for _, big := range []int{500, 1100, 9000, 11000, 20000, 33000, 41000, 49500, 57400, 60000, 63000} {
+			for _, esc := range []bool{false, true} {
+				c := &Case{Logger: lg, Fin: "msg", Build: buildName(), Steps: []Step{{M: "int", V: 3}}, Big: big, BigEsc: esc}
+				n++
+				if msg, _ := run(c); msg != "" {
+					fail(t, "family", c, fmt.Sprintf("with a %d-byte field (escaped=%v): %s", big, esc, msg))
+				}
 			}
 		}
 	}
